@@ -53,4 +53,16 @@ theorem bound_ge (s : Int) (n : Nat) (hn : n < 2 ^ 56) : (n:Int) + 133 ≤ mz_de
 example : mz_deflateBound 0 32769 = 37156 := by decide +kernel
 example : (32769:Int) + (32769 + 7) / 8 + 2 * (32769 / 4096 + 1) + 6 = 36890 := by decide
 
+/-- The bound is monotone in the input length: a buffer sized for `n` bytes is large enough for
+    every shorter input (what a caller relies on when it sizes one buffer for many messages). -/
+theorem bound_mono (s : Int) (m n : Nat) (h : m ≤ n) (hn : n < 2 ^ 56) :
+    mz_deflateBound s m ≤ mz_deflateBound s n := by
+  rw [deflateBound_eq s n hn, deflateBound_eq s m (by omega)]
+  refine Int.max_le.mpr ⟨Int.le_trans ?_ (Int.le_max_left _ _), Int.le_trans ?_ (Int.le_max_right _ _)⟩ <;> omega
+
+/-- The stream argument plays no part in the bound. -/
+theorem bound_ignores_stream (s t : Int) (n : Nat) (hn : n < 2 ^ 56) :
+    mz_deflateBound s n = mz_deflateBound t n := by
+  rw [deflateBound_eq s n hn, deflateBound_eq t n hn]
+
 end C15
